@@ -150,6 +150,8 @@ struct RankSelectCache {
     bit_vector: BitVector,
     rank_select: RankSelectInterleaved256,
     data_hash: u64,
+    /// the byte value the bit vector was built for
+    target: u8,
 }
 
 impl FastSearchEngine {
@@ -373,7 +375,7 @@ impl FastSearchEngine {
         // Check cache first
         let data_hash = self.calculate_hash(data);
         let need_rebuild = self.rank_select_cache.as_ref()
-            .map(|cache| cache.data_hash != data_hash)
+            .map(|cache| cache.data_hash != data_hash || cache.target != target)
             .unwrap_or(true);
 
         if need_rebuild {
@@ -539,7 +541,7 @@ impl FastSearchEngine {
     fn count_rank_select(&mut self, data: &[u8], target: u8) -> Result<usize> {
         let data_hash = self.calculate_hash(data);
         let need_rebuild = self.rank_select_cache.as_ref()
-            .map(|cache| cache.data_hash != data_hash)
+            .map(|cache| cache.data_hash != data_hash || cache.target != target)
             .unwrap_or(true);
 
         if need_rebuild {
@@ -566,6 +568,7 @@ impl FastSearchEngine {
             bit_vector,
             rank_select,
             data_hash,
+            target,
         });
         
         Ok(())
